@@ -97,7 +97,7 @@ Inductive opd :=
 | OpDe (k : keys) (tbl : wtable) (orc : list (N * cbres))
 | OpRef (k : keys) (orc : list (N * cbres))
 | OpMut (k : keys) (tbl : wtable) (orc : list (N * cbres))
-| OpIter (tg : target) (D : nat) (root0 root : option keys) (pre_steps : nat) (exact : bool) (maxn : nat)
+| OpIter (tg : target) (D : nat) (root0 root : option keys) (pre_steps : nat) (exact : bool) (maxn : nat) (resolve : bool)
 | OpSnap.
 
 Definition read_bytes (lg : list (event L)) : obs :=
@@ -114,20 +114,33 @@ Definition read_value (lg : list (event L)) : obs :=
 Definition delta_obs (v v' : value L) : obs :=
   if obs_eqb (value_obs v) (value_obs v') then OL [OZ 1] else OL [OZ 0; value_obs v'].
 
-Definition item_obs (o : iout) : obs :=
+(* the yielded key, used as a key again (in its own representation) *)
+Definition rekey (tg : target) (r : rendered) (d : nat) : option keys :=
+  match tg, r with
+  | TgPath sep _, RdText s => Some (KIter (map KStr (root_keys sep s)))
+  | TgJson _, RdText s => Some (KIter (map KStr (json_keys s)))
+  | TgPacked, RdPacked w => Some (KPacked w)
+  | (TgIndices _ | TgIndices8 _), RdIndices l => Some (KIter (map (fun i => KInt (Z.of_N i)) (firstn d l)))
+  | _, _ => None
+  end.
+Definition item_obs (t : node) (tg : target) (resolve : bool) (o : iout) : obs :=
   match o with
   | IDone => OL [OZ 2]
   | IPanic => OL [OZ (-999)]
-  | IItem (ItOk r d leaf) => OL [OZ 0; rendered_obs r; Onat d; OB leaf]
+  | IItem (ItOk r d leaf) =>
+      OL ([OZ 0; rendered_obs r; Onat d; OB leaf] ++
+          (if resolve then [match rekey tg r d with
+                            | Some k => tnode_obs (fst (transcode t TgUnit k))
+                            | None => OL [] end] else []))
   | IItem (ItErr d) => OL [OZ 1; Onat d]
   end.
 
 (* drive the iterator like harness ops.rs: items until None (or maxn), then two more polls *)
-Fixpoint iter_drive (n : nat) (t : node) (tg : target) (st : istate) : list obs * istate :=
+Fixpoint iter_drive (rs : bool) (n : nat) (t : node) (tg : target) (st : istate) : list obs * istate :=
   match n with O => ([], st) | S n' =>
   match iter_next t tg st with
-  | (IItem it, st') => let '(os, s2) := iter_drive n' t tg st' in (item_obs (IItem it) :: os, s2)
-  | (o, st') => ([item_obs o], st')
+  | (IItem it, st') => let '(os, s2) := iter_drive rs n' t tg st' in (item_obs t tg rs (IItem it) :: os, s2)
+  | (o, st') => ([item_obs t tg rs o], st')
   end end.
 Fixpoint iter_skip (n : nat) (t : node) (tg : target) (st : istate) : istate :=
   match n with O => st | S n' => iter_skip n' t tg (snd (iter_next t tg st)) end.
@@ -161,7 +174,7 @@ Definition run_op (t : node) (v : value L) (o : opd) : obs * value L :=
            | ROk _ => OL [OZ 0; OZ 1]
            | RErr (Inner _) => OL [OZ 0; OZ 0]
            | _ => res_obs r end; log_obs lg; delta_obs v v'], v')
-  | OpIter tg D root0 root pre_steps exact maxn =>
+  | OpIter tg D root0 root pre_steps exact maxn rs =>
       let st0 := iter_skip pre_steps t tg (iter_default D) in
       let st1 := match root0 with
                  | None => inl st0
@@ -175,8 +188,8 @@ Definition run_op (t : node) (v : value L) (o : opd) : obs * value L :=
       match st2 with
       | inr n => (tnode_obs n, v)
       | inl s =>
-          let '(os, s') := iter_drive (S maxn) t tg s in
-          let extra := [item_obs (fst (iter_next t tg s')); item_obs (fst (iter_next t tg (snd (iter_next t tg s'))))] in
+          let '(os, s') := iter_drive rs (S maxn) t tg s in
+          let extra := [item_obs t tg rs (fst (iter_next t tg s')); item_obs t tg rs (fst (iter_next t tg (snd (iter_next t tg s'))))] in
           let cnt := Z.of_N (m_count (metadata t)) in
           let all := os ++ extra in
           let len_at := fun i => OZ (cnt - Z.of_nat (count_items (firstn i all))) in
